@@ -28,6 +28,7 @@ class Cfg:
     max_rows_choices: tuple = (0, 1, 2, 3, 5, 8)
     shuffle_insert: bool = True
     sort_then_slice_prob: float = 0.0
+    twin_leaf_prob: float = 0.12
 
 
 class Gen:
@@ -45,6 +46,14 @@ class Gen:
         if allow_special and cfg.special_leaves and want_cols is None and rng.random() < 0.06:
             self.leaves[name] = {"engine": engine, "cols": [], "rows": [[]], "kind": "identity"}
             return ["leaf", name], frozenset(), engine
+        twins = [n for n, sp in self.leaves.items() if sp["engine"] == engine and sp.get("kind") == "normal" and "table_of" not in sp]
+        if want_cols is None and engine.startswith("sql") and twins and rng.random() < cfg.twin_leaf_prob:
+            orig = rng.choice(twins)
+            spec = dict(self.leaves[orig])
+            spec["table_of"] = orig  # separate LeafRelation and Payload over the same database table
+            spec.pop("ins_seed", None)
+            self.leaves[name] = spec
+            return ["leaf", name], frozenset(spec["cols"]), engine
         if want_cols is None:
             cols = rng.sample(cfg.leaf_cols, rng.randint(0, min(3, len(cfg.leaf_cols))))
             if cfg.nonkeys and cols and rng.random() < 0.3:
@@ -220,7 +229,11 @@ class Gen:
             if r < 0.25:
                 other = state  # self-chain (shared operand)
             elif r < 0.4:
-                new = self.unary(state, rng.choice(["sel", "slice", "dedup"]))
+                # another view of the same (shared) operand; a sort here makes the engine sort rows
+                # that the other operand is reading too
+                new = self.unary(state, rng.choice(["sel", "slice", "dedup", "sort", "sort"]))
+                if new and new[0][0] == "sort" and eng.startswith("sql"):
+                    new = self.unary(new, "slice")  # an unsliced sort cannot be chained in SQL
                 other = new if new else state
             else:
                 other = self.tree(depth - 1, eng if not self.cfg.xfer_prob else None, want_cols=cols)
